@@ -113,10 +113,12 @@ def _atom(rng, mask=None):
         a["ver"] = [rng.choice(OPS) if rng.random() < 0.85 else rng.choice(ODD_OPS),
                     rng.choice(VERSIONS) if h() else _word(rng, _VER_CH, _VER_CH)]
     if mask & 4:
-        a["arch"] = [_signed(rng, ARCHS, _ARCH_CH) for _ in range(rng.randint(1, 3))]
+        a["arch"] = [_signed(rng, ARCHS, _ARCH_CH) for _ in range(rng.choice([1, 1, 2, 2, 3, 3, 9, 17]))]
     if mask & 8:
-        a["restr"] = [[_signed(rng, PROFILES, _PROFILE_CH) for _ in range(rng.randint(1, 3))]
-                      for _ in range(rng.randint(1, 3))]
+        # mostly 1-3 groups of 1-3 terms; sometimes many (a count passed where a flag was meant, a fixed-size
+        # buffer, ... only show beyond some size)
+        a["restr"] = [[_signed(rng, PROFILES, _PROFILE_CH) for _ in range(rng.choice([1, 1, 2, 2, 3, 3, 9]))]
+                      for _ in range(rng.choice([1, 1, 1, 2, 2, 3, 3, 10, 12, 33]))]
     # insertion order of the keys of the relation dict handed to PkgRelation.str (indices into KEYS);
     # one atom in three is built in the parser's own order
     if rng.random() < 0.67:
@@ -439,6 +441,15 @@ def _parse(s, earlier=True):
                 _scribble(PkgRelation.parse_relations(s))
             except Exception:
                 pass
+        # ... and an unrelated, unparsable field was parsed by a caller that turns warnings into errors (the parse is
+        # interrupted by the exception): nothing of it may surface in the parse under test
+        with warnings.catch_warnings():
+            warnings.simplefilter("error")
+            for junk in ("pkg (>= 1.0", "a b c (!!)", "x [", ", ,"):
+                try:
+                    PkgRelation.parse_relations(junk)
+                except Exception:
+                    pass
     with warnings.catch_warnings(record=True) as w:
         warnings.simplefilter("always")
         try:
